@@ -785,7 +785,8 @@ class Fn:
         tg = s.targets[0]
         # center = np.asarray(center)
         if isinstance(tg, ast.Name) and isinstance(s.value, ast.Call) and U(s.value.func) == "np.asarray" \
-                and len(s.value.args) == 1 and U(s.value.args[0]) == tg.id and self.env.get(tg.id, (0, 0))[1] == "Centre":
+                and len(s.value.args) == 1 and not s.value.keywords and U(s.value.args[0]) == tg.id \
+                and self.env.get(tg.id, (0, 0))[1] == "Centre":    # (no `dtype=` / `order=`: a cast would change the centre)
             self.asarrayed.add(tg.id)
             out.append(f"{ind}-- {src}")
             return self.block(rest, ind, out)
